@@ -71,7 +71,10 @@ fn build(args: BuildArgs) -> anyhow::Result<Option<usize>> {
 
     if !args.targets.is_empty() {
         for name in &args.targets {
-            let Some(target) = work.lookup(name) else {
+            let target = work
+                .lookup(name)
+                .filter(|&id| Some(id) == build_file_target || work.is_in_manifest(id));
+            let Some(target) = target else {
                 if args.options.adopt {
                     // cmake invokes -t restat with paths that don't exist
                     // https://github.com/evmar/n2/issues/142
